@@ -36,6 +36,9 @@ Qed.
 Lemma strip_prefix_self : forall p r, strip_prefix p (p ++ r) = Some r.
 Proof. induction p; cbn; intros; [reflexivity|]. rewrite step_eqb_refl. apply IHp. Qed.
 
+Lemma strip_prefix_refl : forall p, strip_prefix p p = Some [].
+Proof. intros. rewrite <- (app_nil_r p) at 2. apply strip_prefix_self. Qed.
+
 Lemma strip_prefix_Some : forall p q r, strip_prefix p q = Some r -> q = p ++ r.
 Proof.
   induction p; cbn; intros q r H.
